@@ -31,6 +31,11 @@ def correspond(ctx):
     n = ctx.scale(60, 1500)
     sevmcheck.run(ctx, ID, dict(FEATURES), n_scenarios=n, n_random_inputs=ctx.scale(6, 12), cfgs=CFGS,
                   malformed=ctx.scale(25, 300))
+    # code with symbolic immutables (concrete | PUSH32 <symbolic word> | concrete), jump destinations located after the holes
+    from vlib import proggen
+
+    sevmcheck.run(ctx, ID, {}, n_scenarios=ctx.scale(16, 300), n_random_inputs=ctx.scale(6, 12),
+                  cfgs=[{}, {"symbolic_jump": True}], gen=proggen.gen_immutable, corpus=False)
 
 
 def replay(ctx, data):
